@@ -165,6 +165,40 @@ func TestC08Recovery(t *testing.T) {
 				unticked++
 				s.logf("reading(slot %d, %q -> %d)", slot, lit, int64(v))
 			},
+			"rewrite": func(t *rapid.T) {
+				// the meter rewrites an earlier row: a second, different reading for a
+				// slot that already has one (it must never change what is sent or resent)
+				if len(clientVal) == 0 {
+					t.Skip("no reading yet")
+				}
+				var slots []uint32
+				for sl := range clientVal {
+					slots = append(slots, sl)
+				}
+				sort.Slice(slots, func(i, j int) bool { return slots[i] < slots[j] })
+				// slots that hold a placeholder (2: small, 3: unreadable) are preferred,
+				// and among them those whose original datagram was lost
+				var special []uint32
+				for _, sl := range slots {
+					if clientVal[sl] == 2 || clientVal[sl] == 3 {
+						special = append(special, sl)
+						if dropped[sl] {
+							special = append(special, sl, sl)
+						}
+					}
+				}
+				if len(special) > 0 && rapid.IntRange(0, 2).Draw(t, "rewriteSpecial") != 0 {
+					slots = special
+				}
+				slot := slots[rapid.IntRange(0, len(slots)-1).Draw(t, "rewriteSlot")]
+				lit := strconv.FormatInt(rapid.Int64Range(24, 1000000).Draw(t, "rewriteVal"), 10)
+				if c09Value(lit, m, d) == clientVal[slot] {
+					t.Skip("same value")
+				}
+				file.WriteString(fmt.Sprintf("%d,%s\n", g+300*int64(slot)+17, lit))
+				s.logf("rewrite(slot %d, %q) - the first reading %d stays", slot, lit, int64(clientVal[slot]))
+				ev.Label("c08:row-rewritten")
+			},
 			"burst": func(t *rapid.T) {
 				// a dense run of readings for consecutive slots (fills whole bytes of the sync bitfield)
 				n := rapid.IntRange(8, 40).Draw(t, "burstLen")
